@@ -517,6 +517,64 @@ Definition v_MsgUpdateDenomAlias (m : e_denom_alias) : vres :=
   CHECK (pure (negb (da_alias_ok m))) FAIL "alias" ;;
   VOk.
 
+(* ---------------- legacy gov v1beta1 Content validators: x/crosschain/types/proposal.go, x/erc20/types/proposal.go ----------------
+   Reachable from the network: the SDK's v1beta1 MsgSubmitProposal handler calls content.ValidateBasic() before it looks
+   for a route (fx-core registers no route for them, so the proposal is then refused with "no handler exists"). *)
+Inductive absv := AbOk | AbBad.     (* govv1beta1.ValidateAbstract: title / description blank or too long *)
+Fixpoint lp_oracles_loop (seen : list Z) (l : list bechv) : vres :=
+  match l with
+  | [] => VOk
+  | b :: r =>
+      match b with
+      | BGood id => CHECK (pure (existsb (Z.eqb id) seen)) FAIL "duplicate oracle address" ;; lp_oracles_loop (id :: seen) r
+      | _ => VErr "invalid oracle address"
+      end
+  end.
+Record l_update_oracles := { lo_chain : chainv; lo_abs : absv; lo_oracles : list bechv }.
+Definition v_UpdateChainOraclesProposal (m : l_update_oracles) : vres :=
+  CHECK (unknown_chain (lo_chain m)) FAIL UC ;;
+  CHECK (pure match lo_abs m with AbBad => true | AbOk => false end) FAIL "proposal " ;;
+  CHECK (pure match lo_oracles m with [] => true | _ => false end) FAIL "empty oracles" ;;
+  lp_oracles_loop [] (lo_oracles m).
+
+Record l_register_coin := { lc_bank_ok : bool; lc_fx : fxmdv; lc_base_ibc_ok : bool; lc_abs : absv }.
+Definition v_RegisterCoinProposal (m : l_register_coin) : vres :=
+  CHECK (pure (negb (lc_bank_ok m))) FAIL "invalid metadata" ;;
+  CHECK (pure match lc_fx m with FmOk => false | _ => true end) FAIL "invalid metadata" ;;
+  CHECK (pure (negb (lc_base_ibc_ok m))) FAIL "invalid metadata base" ;;
+  CHECK (pure match lc_abs m with AbBad => true | AbOk => false end) FAIL "proposal " ;;
+  VOk.
+
+Fixpoint lp_aliases_loop (seen : list Z) (l : list aliasv) : vres :=
+  match l with
+  | [] => VOk
+  | a :: r =>
+      match a with
+      | AlBlank => VErr "alias for denom unit"
+      | AlBadDenom => VErr "invalid alias"
+      | AlGood id => CHECK (pure (existsb (Z.eqb id) seen)) FAIL "duplicate denomination unit alias" ;; lp_aliases_loop (id :: seen) r
+      end
+  end.
+Record l_register_erc20 := { le_address : extv; le_aliases : list aliasv; le_abs : absv }.
+Definition v_RegisterERC20Proposal (m : l_register_erc20) : vres :=
+  CHECK (pure (negb (eth_ok (le_address m)))) FAIL "invalid ERC20 address" ;;
+  SUB (lp_aliases_loop [] (le_aliases m)) ;;
+  CHECK (pure match le_abs m with AbBad => true | AbOk => false end) FAIL "proposal " ;;
+  VOk.
+
+Record l_toggle := { lt_token : tokenv; lt_abs : absv }.
+Definition v_ToggleTokenConversionProposal (m : l_toggle) : vres :=
+  CHECK (pure match lt_token m with TkNeither => true | _ => false end) FAIL "invalid token" ;;
+  CHECK (pure match lt_abs m with AbBad => true | AbOk => false end) FAIL "proposal " ;;
+  VOk.
+
+Record l_denom_alias := { ld_denom_ok : bool; ld_alias_ok : bool; ld_abs : absv }.
+Definition v_UpdateDenomAliasProposal (m : l_denom_alias) : vres :=
+  CHECK (pure (negb (ld_denom_ok m))) FAIL "invalid denom" ;;
+  CHECK (pure (negb (ld_alias_ok m))) FAIL "invalid alias" ;;
+  CHECK (pure match ld_abs m with AbBad => true | AbOk => false end) FAIL "proposal " ;;
+  VOk.
+
 (* ---------------- x/migrate/types/msg.go ---------------- *)
 Inductive sigv := SgEmpty | SgBadHex | SgUnrecoverable | SgOtherKey | SgOk.
 Record g_migrate := { mg_from : bechv; mg_to : extv; mg_same : bool; mg_sig : sigv }.
@@ -734,7 +792,9 @@ Inductive vinput :=
 | I_StakingArgs (a : sargs) | I_CrosschainArgs (a : cargs)
 | I_ValidateExternalAddr (c : chainv) (x : extv)
 | I_IbcCallEvmPacket (m : i_call_evm)
-| I_PubKeyDecorator (npub nsig : Z) | I_MultisigGas (size nkeys ntrue nsigs : Z).
+| I_PubKeyDecorator (npub nsig : Z) | I_MultisigGas (size nkeys ntrue nsigs : Z)
+| I_LUpdateChainOracles (m : l_update_oracles) | I_LRegisterCoin (m : l_register_coin) | I_LRegisterERC20 (m : l_register_erc20)
+| I_LToggle (m : l_toggle) | I_LDenomAlias (m : l_denom_alias).
 
 Definition validate (i : vinput) : vres :=
   match i with
@@ -756,6 +816,9 @@ Definition validate (i : vinput) : vres :=
   | I_IbcCallEvmPacket m => v_IbcCallEvmPacket m
   | I_PubKeyDecorator np ns => v_PubKeyDecorator np ns
   | I_MultisigGas sz nk nt ns => v_MultisigGas sz nk nt ns
+  | I_LUpdateChainOracles m => v_UpdateChainOraclesProposal m | I_LRegisterCoin m => v_RegisterCoinProposal m
+  | I_LRegisterERC20 m => v_RegisterERC20Proposal m | I_LToggle m => v_ToggleTokenConversionProposal m
+  | I_LDenomAlias m => v_UpdateDenomAliasProposal m
   end.
 
 (* Inputs that no decoder in front of the validators can produce, although a Go caller could build them:
@@ -784,6 +847,9 @@ Definition modelled_types : list string :=
     "erc20.MsgRegisterCoin"; "erc20.MsgRegisterERC20"; "erc20.MsgToggleTokenConversion"; "erc20.MsgUpdateDenomAlias";
     "migrate.MsgMigrateAccount"; "gov.MsgUpdateStore"; "gov.MsgUpdateSwitchParams"; "gov.SwitchParams"; "gov.CustomParams";
     "evm.MsgCallContract"; "middleware.IbcCallEvmPacket";
+    "crosschain.UpdateChainOraclesProposal"; "crosschain.InitCrossChainParamsProposal" (* return nil *);
+    "erc20.RegisterCoinProposal"; "erc20.RegisterERC20Proposal"; "erc20.ToggleTokenConversionProposal"; "erc20.UpdateDenomAliasProposal";
+    "legacy.InitEvmParamsProposal" (* return nil *);
     "staking.AllowanceSharesArgs"; "staking.ApproveSharesArgs"; "staking.DelegateArgs"; "staking.DelegateV2Args";
     "staking.DelegationArgs"; "staking.DelegationRewardsArgs"; "staking.RedelegateArgs"; "staking.RedelegateV2Args";
     "staking.TransferSharesArgs"; "staking.TransferFromSharesArgs"; "staking.UndelegateArgs"; "staking.UndelegateV2Args";
